@@ -1025,13 +1025,21 @@ impl FunctionCompiler<'_> {
                 self.compile_and_cast(inner_expr, cast_to)
             }
             hir::Expr::Ref { expr, .. } => {
+                // `^(place)` is the address of the place, like `^place`: parentheses do not
+                // turn a place into a temporary (the mutability check already looks through them)
+                let mut place = expr;
+                while let hir::Expr::Paren(Some(inner)) = self.world_bodies[self.loc.file()][place] {
+                    place = inner;
+                }
+
                 if self.tys[self.loc][expr].is_aggregate()
                     || matches!(
-                        self.world_bodies[self.loc.file()][expr],
+                        self.world_bodies[self.loc.file()][place],
                         hir::Expr::Local(_)
                             | hir::Expr::LocalGlobal(_)
                             | hir::Expr::Index { .. }
                             | hir::Expr::Member { .. }
+                            | hir::Expr::Deref { .. }
                     )
                 {
                     // references to locals or globals should return the actual memory address of the local or global
